@@ -580,9 +580,62 @@ class Inliner(object):
                             return self_.generic_visit(node)
                     R().visit(s)
                     return stmts + [s]
+            # helper calls at conditionally evaluated positions (``a and _h(x)``): a helper that is one ``return <expr>``
+            # is substituted as an expression, which is evaluated exactly when the call would have been
+            if self._subst_expr_calls(s, cls_name):
+                return [s]
         except CannotInline as e:
             self.log.append('%s: %s' % (getattr(s, 'lineno', '?'), e))
         return None
+
+    def _subst_expr_calls(self, s, cls_name):
+        """In the expressions of statement ``s`` itself (not of nested statements) replace calls of expression-bodied
+        helpers (body = ``return <expr>``; simple arguments; no lambda / comprehension / walrus in the body; no name the
+        body reads as a global is bound in the caller) by the body expression.  Returns True when something changed."""
+        bound = getattr(self, '_bound', None)
+        if bound is None:
+            return False
+        roots = []
+        for field in ('value', 'test', 'iter', 'exc', 'msg', 'cause', 'subject'):
+            e = getattr(s, field, None)
+            if isinstance(e, ast.expr):
+                roots.append((s, field))
+        if isinstance(s, (ast.With, ast.AsyncWith)):
+            roots += [(it, 'context_expr') for it in s.items]
+        inl = self
+        done = [0]
+
+        class X(ast.NodeTransformer):
+            def visit_Call(self_, node):
+                self_.generic_visit(node)
+                h, recv = inl._helper_of(node, cls_name)
+                if h is None:
+                    return node
+                body = [b for b in h.node.body]
+                if body and isinstance(body[0], ast.Expr) and isinstance(body[0].value, ast.Constant) and isinstance(body[0].value.value, str):
+                    body = body[1:]
+                if len(body) != 1 or not isinstance(body[0], ast.Return) or body[0].value is None:
+                    return node
+                expr = body[0].value
+                if _contains([expr], (ast.Lambda, ast.ListComp, ast.SetComp, ast.DictComp, ast.GeneratorExp, ast.NamedExpr, ast.Await,
+                                      ast.Yield, ast.YieldFrom), stop=()):
+                    return node
+                try:
+                    pre, new = inl._bind(h, node, recv, set(), None)
+                except CannotInline:
+                    return node
+                if pre or len(new) != 1 or not isinstance(new[0], ast.Return):
+                    return node       # an argument needs a temporary: not expressible in place
+                params = set(a.arg for a in h.node.args.posonlyargs + h.node.args.args + h.node.args.kwonlyargs)
+                free = set(n.id for n in ast.walk(expr) if isinstance(n, ast.Name)) - params
+                if free & bound:
+                    return node
+                done[0] += 1
+                return ast.copy_location(new[0].value, node)
+
+        for owner, field in roots:
+            setattr(owner, field, X().visit(getattr(owner, field)))
+        return bool(done[0])
 
     def _process_block(self, stmts, cls_name, caller_names, tmp_counter, depth=0):
         out = []
@@ -618,6 +671,8 @@ class Inliner(object):
 
         def do_func(fn, cls_name):
             names = _all_names(fn)
+            self._bound = _stored_names(fn.body) | set(a.arg for n in ast.walk(fn) if isinstance(n, ast.arguments)
+                                                       for a in n.posonlyargs + n.args + n.kwonlyargs + [x for x in (n.vararg, n.kwarg) if x])
             new, ch = self._process_block(fn.body, cls_name, names, [0])
             if ch:
                 fn.body = new
